@@ -468,6 +468,9 @@ def sub (S : ScalarOps α) (a b : Op α) : Except Err (Op α) :=
 
 /-! ### elementwise product of two operators (`mul` → `_mul_matrix`) -/
 
+def Op.isTri : Op α → Bool | .tri .. => true | _ => false
+def Op.triUpper : Op α → Bool | .tri up _ => up | _ => false
+
 /-- `a.mul(b)` for an operator `b`.  The base class builds a MulLinearOperator from root
 decompositions (`rootDec` is that numerical primitive: it must return a root-form operator).
 Identity has no override any more: it takes the ConstantDiag / Diag branches. -/
@@ -476,6 +479,9 @@ def mulMatrix (rootDec : Op α → Op α) (a b : Op α) : Except Err (Op α) :=
   | .zero n m => .ok (.zero n m)
   | a =>
     if b.isZero then .ok b
+    else if a.isTri then
+      -- `TriangularLinearOperator._mul_matrix` (be9ba88): Triangular(self.to_dense() * other.to_dense(), upper=self.upper)
+      .ok (.tri a.triUpper (.dense a.rows a.cols fun i j => a.denote i j * b.denote i j))
     else if a.isConstDiag && b.isConstDiag then
       if a.rows = b.rows then .ok (.constDiag a.rows (a.diagOf 0 * b.diagOf 0)) else .error .shape
     else if a.isDiag then .ok (.diag a.rows fun i => a.diagOf i * b.denote i i)
